@@ -451,7 +451,7 @@ func init() {
 		fv := args[1].(*FuncVal)
 		for len(remain) > 0 {
 			i := 0
-			if !p.W.Opts.MapOrderFixed && len(remain) > 1 {
+			if !p.W.Opts.MapOrderFixed && !p.mapOrderFixed && len(remain) > 1 {
 				i = p.Choose(len(remain), "maporder")
 			}
 			e := remain[i]
